@@ -18,13 +18,21 @@ def sh(cmd, cwd, timeout=3600):
     return r.returncode, r.stdout + r.stderr
 
 
-def demo():
+PROFILE = ["--release"]
+
+
+def demo(first=False):
     d = src + "/demo"
     if not os.path.isdir(d): return None, "no demo dir"
     # a demo is either a binary project or a test project
     has_main = os.path.exists(d + "/src/main.rs")
-    cmd = "cargo run --offline --release" if has_main else "cargo test --offline --release"
+    cmd = ("cargo run --offline " if has_main else "cargo test --offline ") + PROFILE[0]
     rc, out = sh(cmd, d)
+    if first and rc == 0:
+        # some changes only show with overflow checks / debug assertions on: retry in the dev profile
+        PROFILE[0] = ""
+        cmd = ("cargo run --offline " if has_main else "cargo test --offline ")
+        rc, out = sh(cmd, d)
     return rc, out[-1500:]
 
 
@@ -39,8 +47,9 @@ rc, out = sh("cargo test --workspace --no-fail-fast --offline 2>&1 | grep -E '^t
 res = re.findall(r"test result: (\w+)\. (\d+) passed; (\d+) failed", out)
 meta["confirmed"]["suite_with_change"] = res
 suite_ok = [(a, int(b), int(c)) for a, b, c in res] == [("ok", 63, 0), ("ok", 58, 0)]
-rc_d1, out_d1 = demo()
+rc_d1, out_d1 = demo(first=True)
 meta["confirmed"]["demo_with_change_exit"] = rc_d1
+meta["confirmed"]["demo_profile"] = "release" if PROFILE[0] else "dev (overflow checks / debug assertions on)"
 # our checks against the changed tree
 targets = ["C%02d" % i for i in range(1, 21)] if run_all else [pid]
 detected = {}
